@@ -565,7 +565,20 @@ def c15(tier):
 
 def tapped(inner, tid, pid):
     """Tap<inner<Probe>>: the inner view with observation points above and below it"""
-    return {"k": "Tap", "id": tid, "c": [with_child(inner, {"k": "Probe", "id": pid})]}
+    return {"k": "Tap", "id": tid, "c": [with_leaf(inner, {"k": "Probe", "id": pid})]}
+
+def with_leaf(cfg, leaf):
+    """the same chain with `leaf` at its bottom (first-child slots all the way down)"""
+    d = dict(cfg)
+    c = list(d.get("c", []))
+    if c and c[0].get("k") not in ("Echo", "Probe"):
+        c[0] = with_leaf(c[0], leaf)
+    elif c:
+        c[0] = leaf
+    else:
+        c = [leaf]
+    d["c"] = c
+    return d
 
 def c01_pairs(outers, inners):
     """[composite, decomposition, composite, decomposition, ...]"""
@@ -610,6 +623,16 @@ def c01(tier):
         for i in range(0, len(nopos), 8):
             run.submit(p1_job, "chain-neg-%d-%d-%d" % (nb, na, i // 8), "MC_C01",
                        {"cfgs": c01_pairs(nopos[i:i + 8], inn), "alphabet": [-2, 0, 3], "unit": 2, "maxlen": L, "taps": True},
+                       cfgfile="MC_C01.cfg", cfg_fraction=2, nontrivial_keys=("same-answer",), view_label=c01_label)
+    # three levels: the inner view is itself a chain (a view over a view that withholds, holds or normalises)
+    n2_ = lambda k, c=None: dict({"k": k, "n": 2}, **({"c": [c]} if c else {}))
+    deep = [n2_("Sma", {"k": "Roc", "n": 1}), n2_("HLNormalizer", n2_("Sma")), n2_("Ema", n2_("LaguerreRSI")), n2_("Max", n2_("Cumulative")),
+            n2_("Roc", n2_("WelfordOnline")), {"k": "Tanh", "c": [n2_("MyRSI")]}]
+    for nb in ((2,) if tier == "quick" else (1, 2, 3)):
+        outs = unary(nb)
+        for i in range(0, len(outs), 8):
+            run.submit(p1_job, "chain3-%d-%d" % (nb, i // 8), "MC_C01",
+                       {"cfgs": c01_pairs(outs[i:i + 8], deep), "alphabet": [1, 2, 4], "unit": 1, "maxlen": L + 1, "taps": True},
                        cfgfile="MC_C01.cfg", cfg_fraction=2, nontrivial_keys=("same-answer",), view_label=c01_label)
     # binary combinators over every pair of children
     kids = [c for c in catalogue(2, positive=True) if c["k"] not in ("Add", "Subtract", "Multiply", "Divide", "Constant", "Echo")]
